@@ -132,6 +132,16 @@ def _singular_other_width(which):
     return make
 
 
+def _singular_huge_row(which):
+    """any l2_lambda: a single row [2^30, 2^30, ...] for the newest, data-less arm: x x' swallows the ridge term in double
+    precision (2^60 + lambda == 2^60), the normal matrix is exactly singular -> rejected from inside training"""
+    def make(rs, cfg, sh):
+        target = sh.arms[-1]
+        d, r, X = np.asarray([target]), np.asarray([1.0]), np.full((1, sh.nf), 2.0 ** 30)
+        return "%s with the single row [2^30]*%d for the data-less arm %r" % (which, sh.nf, target), (lambda m: getattr(m, which)(d, r, X))
+    return make
+
+
 def _ragged_contexts(which):
     def make(rs, cfg, sh):
         b = _batch(rs, cfg, sh, n=3)
@@ -225,6 +235,9 @@ def catalogue():
     cat.append(("fit:singular_other_width", "inside",
                 lambda cfg, sh: cfg["np"]["kind"] == "none" and cfg["lp"]["kind"] in ("lingreedy", "linucb") and sh.fitted
                 and sh.nf >= 2 and cfg["lp"].get("l2") == 0.0, _singular_other_width("fit")))
+    cat.append(("partial_fit:singular_huge_row", "inside",
+                lambda cfg, sh: cfg["np"]["kind"] == "none" and cfg["lp"]["kind"] in ("lingreedy", "linucb", "lints") and sh.fitted
+                and sh.nf >= 2 and len(sh.arms) >= 2 and not cfg["lp"].get("scale"), _singular_huge_row("partial_fit")))
     is_ts = lambda cfg, sh: cfg["lp"]["kind"] == "ts"  # noqa: E731
     cat += [
         # a rejected add_arm that carries a perfectly valid binarizer (only the arm is at fault)
